@@ -11,6 +11,9 @@
 (*   pts:[..]}                                                             *)
 (*   valid   the source is a valid input per the documentation (FALSE for  *)
 (*           the degenerate Triangle / Tetrahedron, judged under C17)      *)
+(*   degen   a degenerate-but-accepted geometry (vanishing size) given     *)
+(*           through the functional interface or magpylib.core             *)
+(*           (Physics!DegenerateOK instead of BodyOK)                      *)
 (*   exc0    zero excitation;  scale = decade of the lattice unit (100 =   *)
 (*           unit 1);  gen = a generic rigid motion was applied (kappa)    *)
 (*   fields  the fields evaluated per call, e.g. <<"B","H","J","M">> for   *)
@@ -79,7 +82,7 @@ ShapeBad(s) == {<<s.t0 + i, "shape", Prop(s), Ctx(s, "-", "-", 0, {}, {}, "probe
                            LET q == s.shapes[j] IN
                            q.shape # (IF q.core THEN <<q.n, 3>> ELSE FieldShape(q.n, q.asvector, q.squeeze))}}
 SceneOut(s) ==
-  IF s.valid /\ ~(BodyOK(s.body) /\ PoseOK(s.pose)) THEN [bad |-> {<<s.t0, "premise-body", "MACHINERY", Ctx(s, "-", "-", 0, {}, {}, "")>>}, cover |-> {}, n |-> 0]
+  IF s.valid /\ ~((IF s.degen THEN DegenerateOK(s.body) ELSE BodyOK(s.body)) /\ PoseOK(s.pose)) THEN [bad |-> {<<s.t0, "premise-body", "MACHINERY", Ctx(s, "-", "-", 0, {}, {}, "")>>}, cover |-> {}, n |-> 0]
   ELSE IF s.outcome = "timeout" THEN [bad |-> {<<s.t0, "timeout", Prop(s), Ctx(s, "-", "-", 0, {}, {}, "")>>}, cover |-> {}, n |-> 1]
   ELSE IF s.outcome = "exception" THEN [bad |-> {<<s.t0, "exception", Prop(s), Ctx(s, "-", "-", 0, {}, {}, s.exc)>>}, cover |-> {}, n |-> 1]
   ELSE LET b == Prep(s.body)
@@ -98,6 +101,7 @@ ASSUME LET tr == Trace
        IN /\ PrintT(<<"validated", Sum(1, Len(tr)), "rejected", Cardinality(bad)>>)
           /\ \A r \in bad : PrintT(<<"REJECT", r[1], r[2], r[3], r[4]>>)
           /\ PrintT(<<"INFO", "cover", UNION {out[i].cover : i \in 1..Len(tr)}>>)
+          /\ PrintT(<<"INFO", "degenerate", UNION {{<<tr[i].name, c[2]>> : c \in out[i].cover} : i \in {j \in 1..Len(tr) : tr[j].degen}}>>)
           /\ PrintT(<<"INFO", "needed", UNION {{<<tr[i].body.cls, n>> : n \in SpecialNames(tr[i].body.cls)} : i \in 1..Len(tr)}>>)
 Init == x = 0
 Next == x' = x
